@@ -228,11 +228,19 @@ def run(facts, res):
             if fn != "new_empty":   # new_empty is unused (dead code) on the pinned tree; its removal is not an alarm
                 res.floor("P2", "Revision::" + fn, 0, 1)
             continue
-        t = peel(du_of(b).local_term(0, 20))
         want = facts.const_str("constants::" + cn)
-        ok = t[0] == "call" and t[1] == "revision::Revision::new" and _is_parent_index_plus_1(t[2][0], 1) and \
-            [x[2] for x in walk(t[2][1]) if x[0] == "const" and x[1] == "str"] == [want] and \
-            t[2][2][0] == "agg" and t[2][2][2] == "Some" and any(y[0] == "param" and y[1] == 1 for y in walk(t[2][2]))
+
+        def is_kind_ctor(t):
+            return t[0] == "call" and t[1] == "revision::Revision::new" and len(t[2]) >= 3 and _is_parent_index_plus_1(t[2][0], 1) and \
+                [x[2] for x in walk(t[2][1]) if x[0] == "const" and x[1] == "str"] == [want] and \
+                peel(t[2][2], stop_var=False)[0] in ("agg", "param") and any(y[0] == "agg" and y[2] == "Some" for y in walk(t[2][2])) and \
+                any(y[0] == "param" and y[1] == 1 for y in walk(t[2][2]))
+        t = peel(du_of(b).local_term(0, 20))
+        ok = is_kind_ctor(t)
+        if not ok and t[0] == "call" and facts.body(t[1]) is not None and not facts.body(t[1]).public:
+            # through a private helper (`new_child(parent, KIND)`): the helper's body with the arguments substituted
+            it = inline_calls(t, facts)
+            ok = any(is_kind_ctor(x) for x in walk(it) if x is not it)
         seen_consts[fn] = want
         res.instance("P2", "Revision::%s = new(parent.index + 1, %r, Some(parent)): %s" % (fn, want, ok), b.loc())
         if not ok:
@@ -251,6 +259,17 @@ def run(facts, res):
     allowed = {"revision::Revision::new", "revision::Revision::new_updated", "revision::Revision::null", "revision::Revision::from",
                "<revision::Revision as std::clone::Clone>::clone"}
     res.instance("P2", "functions building Revision values directly: %s" % sorted(builders), None)
+    # private helpers of the allowed builders (e.g. `from_captures`, called by `from` only) share their licence
+    cg_ = cg_of(facts)
+    changed_ = True
+    while changed_:
+        changed_ = False
+        for p in sorted(builders - allowed):
+            pb = facts.body(p)
+            callers_ = {(facts.body(s_.body.parent) if s_.body.kind == "closure" and s_.body.parent else s_.body).path for s_ in cg_.callers_of(p)}
+            if pb is not None and not pb.public and pb.impl_adt == "revision::Revision" and callers_ and callers_ <= allowed:
+                allowed.add(p)
+                changed_ = True
     for p in sorted(builders - allowed):
         res.violation("P2", "%s|builds-revision-directly" % p, "%s builds a Revision outside the constructors (identifier would not be canonical)" % p, facts.body(p).loc())
 
@@ -263,9 +282,11 @@ def run(facts, res):
     # the parser fills the fields from the groups of the same name
     fb = facts.body("revision::Revision::from")
     if fb is not None:
-        du = du_of(fb)
+        from ..common import members_of
         n = 0
-        for blk in fb.blocks:
+        for fbm in members_of(facts, fb):
+          du = du_of(fbm)
+          for blk in fbm.blocks:
             for st in blk.stmts:
                 if st.kind == "assign" and st.rv.kind == "agg" and st.rv.j.get("adt") == "revision::Revision":
                     n += 1
@@ -284,7 +305,7 @@ def run(facts, res):
                                           "Revision::from transforms the captured text of group `%s` (%s) before storing it: printing a revision and parsing it back "
                                           "no longer yields the same revision for every identifier the system can print" % (fld, sorted(between)), fb.loc(st.line))
         res.instance("P3", "Revision::from: %d aggregates, every field filled from the regex group of the same name" % n, fb.loc())
-        res.floor("P3", "Revision aggregates in the parser", n, 2)
+        res.floor("P3", "Revision aggregates in the parser", n, 1)
         # P3b: the parser accepts a tail only where Display prints one (index > 1).  Display drops the tail of a revision
         # whose index is <= 1 while Eq / Hash compare it: an accepted text `1-d_t` denotes a revision that prints as `1-d`, is
         # not the creation revision `1-d`, and whose children are named exactly like the children of `1-d` - one revision key,
@@ -292,7 +313,9 @@ def run(facts, res):
         from ..census import atom_of
         res.rule("P3", "parse is the inverse of print on everything the parser accepts: a tail is accepted only for index > 1")
         nb = 0
-        for blk in fb.blocks:
+        for fbm in members_of(facts, fb):
+          du = du_of(fbm)
+          for blk in fbm.blocks:
             for st in blk.stmts:
                 # the sites where the parser wraps the captured `tail` group in Some(..)
                 if not (st.kind == "assign" and st.rv.kind == "agg" and st.rv.j.get("variant") == "Some"):
@@ -304,8 +327,8 @@ def run(facts, res):
                     continue
                 nb += 1
                 ok = False
-                for l in lits_of(fb, blk.idx, facts):
-                    a = atom_of(l, fb)
+                for l in lits_of(fbm, blk.idx, facts):
+                    a = atom_of(l, fbm)
                     if a and a[0] == "lt":
                         if (a[1] == "const:1" and a[3] is True) or (a[2] == "const:2" and a[3] is False):
                             ok = True
